@@ -155,7 +155,7 @@ mut("sc_climb_on_any_common_bit", ["C01"], "calAndSetShortCircuit/",
     [("compiler.go", "\t\tfor p.flag&flag == flag {", "\t\tfor p.flag&flag != 0 {")], "the last operand climbs through a parent that is decided by only one of its two values")
 mut("sc_last_child_off_by_one", ["C03"], "calAndSetShortCircuit/",
     [("compiler.go", "\t\t\t\treturn pIdx == idx+1\n", "\t\t\t\treturn pIdx == idx+1 || pIdx == idx+2\n")], "the operand before the last one is treated as the last")
-mut("sc_root_target_not_encoded", ["C01"], "calAndSetShortCircuit/post/targets-in-range",
+mut("sc_root_target_not_encoded", ["C01"], "calAndSetShortCircuit/",
     [("compiler.go", "\t\tif f[i] == size-1 {\n\t\t\tn.scIdx = -1", "\t\tif f[i] == size {\n\t\t\tn.scIdx = -1")], "a jump to the root is not encoded as -1")
 mut("sc_if_condition_inherits", ["C03"], "calAndSetShortCircuit/",
     [("compiler.go", "\t\tif pIdx != -1 && p.getNodeType() == cond && i > pIdx {\n\t\t\tif f[pIdx] != pIdx {", "\t\tif pIdx != -1 && p.getNodeType() == cond {\n\t\t\tif f[pIdx] != pIdx {")], "the condition of an if inherits the jumps of the if expression")
